@@ -316,6 +316,8 @@ def dot(x, y):
         # pull rational factors out of single-monomial operands; order the operands canonically (vector inner product)
         fac = Fraction(1)
         out = []
+        if (a.k == "num" and a.a[0].is_zero()) or (b.k == "num" and b.a[0].is_zero()):
+            return const(0)          # the zero vector
         for v in (a, b):
             if v.k == "num" and len(v.a[0].t) == 1:
                 (m, c), = v.a[0].t.items()
@@ -2108,6 +2110,27 @@ class Interp:
         self._log_call(env, fv, tuple(args))
         return res
 
+    def _root_finder_event(self, name, args, kw, node, env, fr, result):
+        """The call `finder(f, a, b, args=...)` as an event `rootfind`, with the callable evaluated at both bracket ends.  The
+        evaluation runs on a private copy of the state and leaves no events / effects behind; an end value is None when the callable
+        could not be applied (then nothing is known about its sign there)."""
+        more = kw.get("args")
+        more = [] if more is None else (list(more.a[0]) if more.k in ("tup", "list") else None)
+        vals = []
+        for end in (args[1], args[2]):
+            v = None
+            if more is not None and args[0].k in ("fn", "partial", "bound", "obj", "ite"):
+                saved = (self.events, list(self.notes_soft), fr.cur)
+                self.events = []
+                try:
+                    e2 = env.copy()
+                    fr.cur = e2
+                    v = self.apply(args[0], [end] + more, [], node, e2, fr)
+                finally:
+                    self.events, self.notes_soft, fr.cur = saved
+            vals.append(v)
+        self.event("rootfind", fr, node, env, finder=name, f=args[0], a=args[1], b=args[2], fa=vals[0], fb=vals[1], result=result)
+
     def _log_call(self, env, fv, args):
         if fv.k != "ite":
             env.log[("called", fv.key) + tuple(a.key for a in args)] = TRUE
@@ -2137,6 +2160,7 @@ class Interp:
             if fo.k == "const":
                 extra = tuple((k, v) for (k, v) in kws if k != "full_output")
                 r = lift(lambda f0, a0, b0: mk("root", f0, a0, b0, extra), args[0], args[1], args[2])
+                self._root_finder_event(name, args, kw, node, env, fr, r)
                 return mk("tup", (r, mk("opq", "root finder report", r.key))) if fo.a[0] else r
         if last == "setattr" and n == 3 and not kws and args[1].k == "const" and isinstance(args[1].a[0], str) and args[0].k != "ite":
             env.vars[(args[0].key, args[1].a[0])] = args[2]
